@@ -9,6 +9,7 @@
 #
 from abc import abstractmethod
 from typing import Union, Any
+import base64
 import codecs
 
 from elementpath.aliases import XPath2ParserType
@@ -171,7 +172,7 @@ class Base64Binary(AbstractBinary):
 
     @classmethod
     def encoder(cls, value: bytes) -> bytes:
-        return codecs.encode(value, 'base64').rstrip(b'\n')
+        return base64.b64encode(value)
 
     def decode(self) -> bytes:
         return codecs.decode(self.value, 'base64')
